@@ -244,6 +244,15 @@ Persist ==
 FreshInit ==
   (pc \in {"start", "loop"} /\ iter = 0 /\ fresh) => strat = AbsInit(strat.kind)
 
+\* Reachability witnesses: each of these "invariants" must be VIOLATED (the driver checks that TLC finds a
+\* behaviour reaching the situation), so that no property above holds vacuously.
+NeverFtol == result /= "Ftol"
+NeverPtol == result /= "Ptol"
+NeverMaxIters == result /= "MaxIters"
+NeverRejected == ~(pc = "loop" /\ nacc < iter)
+NeverAcceptedAtZeroResidual == ~(pc = "loop" /\ cost = 0 /\ nacc > 0)
+NeverSecondRunOnSharedStrategy == ~(run = 2 /\ ~fresh /\ iter > 0 /\ strat /= AbsInit(strat.kind))
+
 \* every run returns.  Termination is the temporal statement (checked with the liveness checker on the small
 \* configuration Minimize_live.cfg); Decreases + NotStuck is its safety-style proof by a ranking function, cheap
 \* enough for every configuration: every step strictly decreases Rank and a step is possible until "done".
